@@ -110,6 +110,11 @@ def main():
                            "b": {"m": ["float", "5", "2"], "u": [[[2, 3], f"zzd{ub}", ea]]}})
                 dc.append({"op": op, "disconnected": True, "a": {"m": ["int", "3", "1"], "u": [[None, f"zzd{ua}", ea], [None, "zzt0", -1]]},
                            "b": {"m": ["float", "5", "2"], "u": [[None, f"zzd{ub}", ea], [None, "zzt0", -1]]}})
+    # zero on both sides is still not comparable without a conversion
+    for op in ("eq", "ne", "lt", "le", "gt", "ge"):
+        for za, zb in ((["int", "0", "1"], ["int", "0", "1"]), (["float", "0", "1"], ["int", "0", "1"]), (["dec", "0", "1"], ["float", "0", "1"])):
+            dc.append({"op": op, "disconnected": True, "a": {"m": za, "u": [[None, "zzd0", 1]]}, "b": {"m": zb, "u": [[None, "zzd1", 1]]}})
+            dc.append({"op": op, "disconnected": True, "a": {"m": za, "u": [[[2, 10], "zzd0", 1]]}, "b": {"m": zb, "u": [[[2, -3], "zzd2", 1]]}})
     for (ua, ub) in ((0, 1), (1, 2)):
         dc.append({"op": "in_unit", "a": {"m": ["int", "3", "1"], "u": [[None, f"zzd{ua}", 1]]}, "b": [[None, f"zzd{ub}", 1]]})
     rr, rro = run_both({"systems": False, "define": define, "decls": [], "cases": dc})
